@@ -1,5 +1,5 @@
-(* C13 - the code as it is (ServerM.run false) versus the repaired code (run true):
-   they coincide on every well-formed history that never triggers defect D4, i.e. in
+(* C13 - the code as it is (ServerM.run Cur) versus the repaired code (run (Fix false)):
+   ([Cur] versus [Fix false]) they coincide on every well-formed history that never triggers defect D4, i.e. in
    which status / cancel name only ids that are open tasks of the requesting client
    (result requests, disconnects, RESULT/ERROR/LOG from below are unrestricted). *)
 From Coq Require Import List Arith Bool Lia.
@@ -19,7 +19,7 @@ Definition safe (sp : spec) (e : event) : bool :=
 Fixpoint d4_free (sp : spec) (es : list event) : bool :=
   match es with
   | [] => true
-  | e :: r => safe sp e && d4_free (fst (sstep sp e)) r
+  | e :: r => safe sp e && d4_free (fst (sstep false sp e)) r
   end.
 
 (* the sets in `clients` are duplicate free *)
@@ -73,7 +73,7 @@ Proof.
     apply (IH H s1 s' o2); auto. apply (H x s s1 o1); auto.
 Qed.
 
-Lemma CN_cancel_fix : forall c t s s' o, CN s -> cancel_fix c t s = Ok s' o -> CN s'.
+Lemma CN_cancel_fix : forall c t s s' o, CN s -> cancel_fix false c t s = Ok s' o -> CN s'.
 Proof.
   unfold cancel_fix; intros c t s s' o C E.
   destruct (get c (clients s)) as [ts|] eqn:G; try discriminate.
@@ -91,13 +91,13 @@ Proof.
   inversion E; subst. exact C.
 Qed.
 
-Lemma CN_disconnect : forall c s s' o, CN s -> disconnect true c s = Ok s' o -> CN s'.
+Lemma CN_disconnect : forall c s s' o, CN s -> disconnect (Fix false) c s = Ok s' o -> CN s'.
 Proof.
   unfold disconnect; intros c s s' o C E. simpl in E.
   destruct (get c (clients s)) as [ts|] eqn:G; try discriminate.
-  destruct (foreach ts (cancel_fix c) (with_closed s (c :: closed s))) as [s2 o2|] eqn:F; simpl in E; try discriminate.
+  destruct (foreach ts (cancel_fix false c) (with_closed s (c :: closed s))) as [s2 o2|] eqn:F; simpl in E; try discriminate.
   assert (C2 : CN s2).
-  { eapply (foreach_keeps _ CN (cancel_fix c) ts); [intros; eapply CN_cancel_fix; eauto| |exact F]. exact C. }
+  { eapply (foreach_keeps _ CN (cancel_fix false c) ts); [intros; eapply CN_cancel_fix; eauto| |exact F]. exact C. }
   unfold pop_tasks_of in E.
   destruct (foreach _ pop_task (with_clients s2 (del c (clients s2)))) as [s3 o3|] eqn:P; try discriminate.
   inversion E; subst.
@@ -105,7 +105,7 @@ Proof.
   unfold CN. simpl. apply Forall_del. exact C2.
 Qed.
 
-Lemma CN_handle : forall e s s' o, CN s -> handle true e s = Ok s' o -> CN s'.
+Lemma CN_handle : forall e s s' o, CN s -> handle (Fix false) e s = Ok s' o -> CN s'.
 Proof.
   intros e s s' o C E. destruct e; simpl in E.
   - inversion E; subst. unfold CN; simpl. apply Forall_set; auto. constructor.
@@ -114,12 +114,12 @@ Proof.
     inversion E; subst. unfold CN; simpl. apply Forall_set; auto. simpl. apply NoDup_sadd. eapply CN_get; eauto.
   - unfold request in E. destruct (get c (clients s)) as [ts|] eqn:G; try discriminate.
     destruct (negb (mem t ts) || negb (haskey t (tasks s))).
-    + simpl in E. destruct (disconnect true c s) as [s2 o2|] eqn:D; try discriminate. inversion E; subst.
+    + simpl in E. destruct (disconnect (Fix false) c s) as [s2 o2|] eqn:D; try discriminate. inversion E; subst.
       eapply CN_disconnect; eauto.
     + destruct (get t (tasks s)) as [[mb cc]|]; try discriminate.
       destruct (get mb (boxes s)) as [[[v|] w]|]; try discriminate; inversion E; subst; auto.
       unfold CN; simpl. apply Forall_set; auto. simpl. apply NoDup_srem. eapply CN_get; eauto.
-  - unfold status in E. destruct (get c (clients s)); try discriminate.
+  - unfold status, is_fix in E. destruct (get c (clients s)); try discriminate.
     destruct ((negb (mem t l) || negb (haskey t (tasks s))) && true).
     + inversion E; subst; auto.
     + destruct (get t (tasks s)) as [[mb cc]|]; try discriminate.
@@ -157,7 +157,7 @@ Lemma cancel_loops : forall c l a b,
   (exists tsb, get c (clients b) = Some tsb /\ forall t, In t l -> In t tsb) ->
   (forall t, In t l -> exists mb, get t (tasks b) = Some (mb, c) /\ get mb (boxes b) <> None) ->
   (forall t t' mb, In t l -> In t' l -> get t (tasks b) = Some (mb, c) -> get t' (tasks b) = Some (mb, c) -> t = t') ->
-  exists a' b' o, foreach l cancel_cur a = Ok a' o /\ foreach l (cancel_fix c) b = Ok b' o /\ Cpl c a' b'.
+  exists a' b' o, foreach l cancel_cur a = Ok a' o /\ foreach l (cancel_fix false c) b = Ok b' o /\ Cpl c a' b'.
 Proof.
   induction l as [|t l IH]; intros a b CP CL ND [tsb [G IN]] HT INJ.
   - exists a, b, []. auto.
@@ -172,7 +172,7 @@ Proof.
     assert (CA : cancel_cur t a = Ok a1 [OBcast mb]).
     { unfold cancel_cur, a1. rewrite E1, GT, E3, GBX. simpl. rewrite E7, get_del, Nat.eqb_refl.
       unfold ack. simpl. rewrite E5, MC. reflexivity. }
-    assert (CB : cancel_fix c t b = Ok b2 [OBcast mb]).
+    assert (CB : cancel_fix false c t b = Ok b2 [OBcast mb]).
     { unfold cancel_fix. rewrite G, M. unfold haskey. rewrite GT. simpl. rewrite GBX.
       unfold ack. simpl. rewrite MC. reflexivity. }
     destruct (IH a1 b2) as [a' [b' [o [F1 [F2 CP']]]]]; auto.
@@ -188,7 +188,7 @@ Proof.
 Qed.
 
 Lemma disconnect_same : forall s sp c, Inv s sp -> CN s -> cst sp c = CConnected ->
-  disconnect false c s = disconnect true c s.
+  disconnect Cur c s = disconnect (Fix false) c s.
 Proof.
   intros s sp c [R [S CO]] C CC.
   set (s1 := with_closed s (c :: closed s)).
@@ -213,7 +213,7 @@ Proof.
 Qed.
 
 Lemma handle_same : forall s sp e, Inv s sp -> CN s -> wf_ev sp e = true -> safe sp e = true ->
-  handle false e s = handle true e s.
+  handle Cur e s = handle (Fix false) e s.
 Proof.
   intros s sp e I C W SF. pose proof I as [R [S CO]]. destruct e; simpl in *; auto.
   - apply cst_is_eq in W. eapply disconnect_same; eauto.
@@ -230,30 +230,30 @@ Proof.
 Qed.
 
 Theorem current_eq_fixed : forall es s sp, Inv s sp -> CN s ->
-  wf_run sp es = true -> d4_free sp es = true -> run false s es = run true s es.
+  wf_run false sp es = true -> d4_free sp es = true -> run Cur s es = run (Fix false) s es.
 Proof.
   induction es as [|e r IH]; intros s sp I C W D; auto.
   simpl in W, D. apply andb_true_iff in W. destruct W as [W1 W2]. apply andb_true_iff in D. destruct D as [D1 D2].
-  assert (ST : step false s e = step true s e).
+  assert (ST : step Cur s e = step (Fix false) s e).
   { unfold step. rewrite (handle_same s sp e I C W1 D1). reflexivity. }
   rewrite !run_cons, ST.
-  destruct (step_ok s sp e I W1) as [s' [o [E [_ I']]]].
-  assert (FS : fst (step true s e) = s').
+  destruct (step_ok false s sp e I W1) as [s' [o [E [_ I']]]].
+  assert (FS : fst (step (Fix false) s e) = s').
   { unfold step. destruct I as [R _]. rewrite (r_up _ _ R), E. reflexivity. }
   rewrite FS. rewrite (IH s' _ I' (CN_handle _ _ _ _ C E) W2 D2). reflexivity.
 Qed.
 
-Theorem current_partial : forall es, wf_run spec0 es = true -> d4_free spec0 es = true ->
-  run false init es = run true init es.
+Theorem current_partial : forall es, wf_run false spec0 es = true -> d4_free spec0 es = true ->
+  run Cur init es = run (Fix false) init es.
 Proof. intros. apply (current_eq_fixed es init spec0 Inv_init); auto. constructor. Qed.
 
-Theorem current_refines_partial : forall es, wf_run spec0 es = true -> d4_free spec0 es = true ->
-  run false init es = run true init es
-  /\ map answers (snd (run false init es)) = snd (srun spec0 es)
-  /\ ~ In OCrash (concat (snd (run false init es)))
-  /\ Inv (fst (run false init es)) (fst (srun spec0 es)).
+Theorem current_refines_partial : forall es, wf_run false spec0 es = true -> d4_free spec0 es = true ->
+  run Cur init es = run (Fix false) init es
+  /\ map answers (snd (run Cur init es)) = snd (srun false spec0 es)
+  /\ ~ In OCrash (concat (snd (run Cur init es)))
+  /\ Inv (fst (run Cur init es)) (fst (srun false spec0 es)).
 Proof.
   intros es W D. pose proof (current_partial es W D) as E. rewrite E.
-  destruct (requests_refine es W) as [A [N _]].
-  split; [reflexivity|split; [exact A|split; [exact N|apply tables_inv; auto]]].
+  destruct (requests_refine false es W) as [A [N _]].
+  split; [reflexivity|split; [exact A|split; [exact N|apply (tables_inv false); auto]]].
 Qed.
